@@ -34,7 +34,11 @@ def snap(o, depth=0):
             b = hashlib.md5(np.ascontiguousarray(o).view(np.uint8).tobytes() if o.dtype != object else repr(o.tolist()).encode()).hexdigest()
         except Exception:
             b = hashlib.md5(repr(o.tolist()).encode()).hexdigest()
-        return ("nd", str(o.dtype), o.shape, o.strides, bool(o.flags.writeable), b)
+        try:
+            ms = hashlib.md5(np.sort(np.asarray(o).reshape(-1)).view(np.uint8).tobytes()).hexdigest() if o.dtype != object else ""
+        except Exception:
+            ms = ""
+        return ("nd", str(o.dtype), o.shape, o.strides, bool(o.flags.writeable), b, ms)
     if isinstance(o, dict):
         return ("dict", tuple((repr(k), snap(v, depth + 1)) for k, v in o.items()))
     if isinstance(o, (list, tuple)):
@@ -56,7 +60,10 @@ def describe_diff(a, b, path="arg"):
         return None
     if a[0] == "nd" and b[0] == "nd":
         names = ["kind", "dtype", "shape", "strides", "writeable", "bytes"]
-        return "%s: %s changed" % (path, ",".join(n for n, x, y in zip(names, a, b) if x != y))
+        what = ",".join(n for n, x, y in zip(names, a, b) if x != y)
+        if what == "bytes" and len(a) > 6 and a[6] and a[6] == b[6]:
+            what = "bytes (same multiset of values: reordered in place)"
+        return "%s: %s changed" % (path, what)
     if a[0] in ("list", "tuple") and b[0] == a[0] and len(a[1]) == len(b[1]):
         for i, (x, y) in enumerate(zip(a[1], b[1])):
             d = describe_diff(x, y, "%s[%d]" % (path, i))
@@ -214,7 +221,8 @@ def purity(ck):
                         "%s (%s layout) wrote outside the view it was given: %s" % (r["name"], r["variant"], r["wrote_outside_view"]),
                         {"routine": r["name"], "variant": r["variant"], "rep": r["rep"], "seed": ck.seed, "detail": r["wrote_outside_view"]})
             if r.get("mutated"):
-                ck.fail("mutates-input/%s" % r["name"],
+                kind_ = "reordered-in-place" if "reordered in place" in r["mutated"] else "values-or-metadata-changed"
+                ck.fail("mutates-input/%s/%s" % (r["name"], kind_),
                         "%s (%s layout) changed its caller's data: %s" % (r["name"], r["variant"], r["mutated"]),
                         {"routine": r["name"], "variant": r["variant"], "rep": r["rep"], "seed": ck.seed, "diff": r["mutated"]})
     for c in crashes:
